@@ -24,7 +24,7 @@ def valueToSV : Value → Option SV
   | .record kvs => (recordToSV kvs).map .record
   | .lambda _ args body scope =>
     match recordToSV scope with
-    | some sc => some (.lambda args (exprSrc sc body))
+    | some sc => some (.lambda args (parenIf (lambdaBodyNeedsParens body) (exprSrc sc body)))
     | none => none
   | .builtin n => some (.builtin n)
   | .spread _ => none
@@ -58,7 +58,8 @@ def stringify (ops : NumOps) (wrap disp : Bool) : Value → String
   | .list xs => "[" ++ ", ".intercalate (stringifyList ops wrap disp xs) ++ "]"
   | .record kvs => "{" ++ ", ".intercalate (stringifyRec ops wrap disp kvs) ++ "}"
   | .lambda _ args body scope =>
-    "(" ++ ", ".intercalate (args.map lambdaArgToSource) ++ ") => " ++ exprSrc (scopeForStringify scope) body
+    "(" ++ ", ".intercalate (args.map lambdaArgToSource) ++ ") => " ++
+      parenIf (lambdaBodyNeedsParens body) (exprSrc (scopeForStringify scope) body)
   | .builtin n => n ++ " (built-in)"
   | .spread (.list xs) => "..." ++ String.join (stringifyList ops wrap disp xs)
   | .spread (.str s) => "..." ++ s
